@@ -88,8 +88,9 @@ def rules(ctx, tier):
 
     r = Rule("R2", "only reported garbage is removed: every removed path comes from a list of the same report",
              "clean-up deletes something the scan did not report (a fresh scan result, or a path from the index)")
+    from ..prov import TRANSPARENT, ITER_PRESERVING
     for b in croots:
-        sl = Slicer(ctx.world, b)
+        sl = Slicer(ctx.world, b, transparent=TRANSPARENT | ITER_PRESERVING)
         for e in ctx.fx.effects:
             if e.site.body.path != b.path or e.kind not in ("FS_UNLINK", "FS_RENAME"):
                 continue
@@ -195,7 +196,8 @@ def cleanup_complete(ctx, r, report):
         removes = [e for e in ctx.fx.effects if e.site.body.path == b.path and e.kind in ("FS_UNLINK", "FS_RENAME")]
         if not removes:
             continue
-        sl = Slicer(ctx.world, b)
+        from ..prov import TRANSPARENT, ITER_PRESERVING
+        sl = Slicer(ctx.world, b, transparent=TRANSPARENT | ITER_PRESERVING)
         walks = {}
         for s in b.calls():
             if (s.path or "") != "std::iter::IntoIterator::into_iter" or not s.term["args"]:
